@@ -18,6 +18,14 @@ scanner keeps delivering `TEOF` (as `scan()` does at the end of the last file). 
 reaches the shared storage.  The writes that *do* go to shared storage are `t[0].space = space`
 in `ctxpush`; every such cell is rewritten by the `ctxpush` that precedes its next read, so a
 frame that carries its own copy of the tokens (first token re-spaced) is equivalent.
+This is a stated difference: in the C code the *stored* replacement list (`m->token[0].space`) and
+the stored argument (`arg->token[0].space`) no longer carry their original spacing once the macro
+has been expanded, in the model they do.  The only other reader of a stored replacement list is
+`macroequal`, which does not look at `space` (known finding `macroequal-ignores-space`) — a
+`macroequal` that did would reject the byte-identical redefinition of a macro that has been used
+without white space in front of its name.  The K-A comparison covers this with the stream
+`redefine-after-use` of `checks/c12.py` (definitions, uses with and without white space before the
+name, the same definitions again, uses again).
 
 ## Control
 The C functions call each other recursively (`next → expand → expandfunc → expand …`,
